@@ -270,13 +270,17 @@ def run(ctx, rep, tier):
     for t in [n for n in ast.walk(mn) if isinstance(n, ast.Try)]:
         body_src = " ".join(ast.unparse(s) for s in t.body)
         for h in t.handlers:
-            ht = ast.unparse(h.type) if h.type else "*"
-            for phase, pat in (("flags", "load_commandline_flags"), ("read", "open(input_file)"), ("syntax", "parser.parse("), ("parse", "pctx.parse()"), ("compile", "dctx.compile()"), ("codegen", "generate_header()")):
+            hts = [ast.unparse(e) for e in h.type.elts] if isinstance(h.type, ast.Tuple) else [ast.unparse(h.type) if h.type else "*"]
+            for phase, pat in (("flags", "load_commandline_flags"), ("read", "open(input_file)"), ("syntax", "parser.parse("), ("parse", "pctx.parse()"), ("compile", "dctx.compile()"), ("codegen", "generate_header()"),
+                               ("write", "f.write(header)")):
                 if pat in body_src:
-                    handlers.setdefault(phase, set()).add(ht)
-    want = {"flags": "RuntimeError", "read": "IOError", "syntax": "lark.LarkError", "parse": "NMFUError", "compile": "NMFUError", "codegen": "NMFUError"}
-    for phase, ht in want.items():
-        rep.check(ht in handlers.get(phase, set()), "C18.h", "main", f"{phase} phase handles {ht}", f"main() no longer catches {ht} around the {phase} phase")
+                    handlers.setdefault(phase, set()).update(hts)
+    want = {"flags": ["RuntimeError"], "read": ["IOError", "UnicodeDecodeError"], "syntax": ["lark.LarkError"], "parse": ["NMFUError"], "compile": ["NMFUError"], "codegen": ["NMFUError"], "write": ["IOError"]}
+    why = {"UnicodeDecodeError": " (text-mode read() decodes: a Latin-1 byte in a comment ends in a traceback - F-98)", "IOError": ""}
+    for phase, hts in want.items():
+        for ht in hts:
+            rep.check(ht in handlers.get(phase, set()) or (ht == "IOError" and "OSError" in handlers.get(phase, set())), "C18.h", "main", f"{phase} phase handles {ht}",
+                      f"main() does not catch {ht} around the {phase} phase{why.get(ht, '')}" + (" (an unwritable output location ends in a traceback after the whole compilation - F-99)" if phase == "write" else ""))
 
 
 # ================================================================================================================ helpers
